@@ -7,7 +7,7 @@ RULE = ("every closure class and alias (8 names) x hard-core flag x sigma {on a 
         "Domain.r grid (passed bit-exactly) x gamma families {normal, +-50 tails, zeros, tiny} x potential families {random finite, hard core 1e6, "
         "LJ-like, zero, tiny}; the returned array is compared with the Lean model (rtol 1e-12 on the scale of the data; the comparison r > sigma is bit-exact), "
         "the published relation is evaluated independently at every point, and purity probes run (inputs bit-identical after the call, second call identical, "
-        "element-wise: index i unchanged when all other indices are replaced, alias == parent). Non-trivial = at least one point in each branch or |gamma| > 5; "
+        "element-wise: index i unchanged when all other indices are replaced, alias == parent); histories on ONE closure object whose potential/sigma are re-assigned or edited in place between calls. Non-trivial = at least one point in each branch or |gamma| > 5; "
         "distinct = distinct case")
 EXTRA_TRUSTED = ["numpy's exp/sqrt vs libm's (Lean Float): agreement to 1e-12 relative is assumed and checked on every case",
                  "Martynov-Sarkisov: the model carries the shipped expression and the two published variants A (1983) and B (gamma*=gamma-u); "
@@ -91,7 +91,37 @@ def suite_eval(ctx, case):
         elt = (o3[i] == out[i]) or (np.isnan(o3[i]) and np.isnan(out[i]))
         ctx.pred('eval', case, bool(elt), '%s: value at index %d depends on other indices' % (name, i), key='C09:elementwise')
 
-SUITES = {'eval': suite_eval}
+def suite_history(ctx, case):
+    """ONE closure object used repeatedly while its attributes change between calls: re-assignment of .potential / .sigma,
+    in-place edits of the potential array (a temperature sweep rescaling u), different gamma, different grids.  Every call must
+    return the relation for the attributes as they are NOW (no state carried from earlier calls)."""
+    name = case['cls']; kind = NAMES[name]; hc = case['hc']
+    c = getattr(CL, name)(apply_hard_core=hc)
+    r = np.array(case['r'], dtype=float); u = np.array(case['u'], dtype=float)
+    c.sigma = case['sigma']; c.potential = u
+    for step, (op, val) in enumerate(case['steps']):
+        if op == 'scale_inplace': c.potential *= val
+        elif op == 'set_inplace': c.potential[int(val[0]) % len(r):] = val[1]
+        elif op == 'assign': c.potential = np.array(val, dtype=float)
+        elif op == 'sigma': c.sigma = val
+        g = np.array(case['gammas'][step], dtype=float)
+        ucur = np.array(c.potential, dtype=float).copy(); sig = c.sigma
+        with np.errstate(all='ignore'):
+            out = np.array(c.calculate(r, g), dtype=float)
+        sub = dict(case, steps=case['steps'][:step + 1])
+        fin = out[np.isfinite(out)]
+        scale = 1.0 + float(np.max(np.abs(g))) + (float(np.max(np.abs(fin))) if fin.size else 0.0)
+        if kind != 'ms':
+            args = '%d %s | %s | %s | %s' % (1 if hc else 0, f2h(sig), fl(r), fl(g), fl(ucur))
+            ctx.corr('history', sub, ctx.drv.ask('clos %s %s' % (kind, args)), fl(out), rtol=1e-12, scale=scale, what='%s.calculate after %s' % (name, op))
+        inside = ~(r > sig) if hc else np.zeros(len(r), dtype=bool)
+        okc = (not hc) or np.array_equal(out[inside], (-1 - g)[inside])
+        pubs = published(kind, g, ucur)
+        okp = any(agree(out[~inside], q[~inside], scale) for q in pubs)
+        ctx.pred('history', sub, bool(okc) and (okp or kind == 'ms'), '%s: after %s on the same object the result is not the relation for the CURRENT potential/sigma' % (name, op),
+                 key='C09:stateful')
+
+SUITES = {'eval': suite_eval, 'history': suite_history}
 
 def gen_case(rng, maxL):
     L = rng.choice([1, 2, 4, 8, 16, rng.randint(1, maxL)])
@@ -116,8 +146,29 @@ def gen_case(rng, maxL):
     return {'cls': rng.choice(list(NAMES)), 'hc': rng.random() < 0.5, 'sigma': sigma, 'r': r, 'gamma': g, 'u': u,
             'probe': rng.randrange(1000), 'fam': [sk, gk, uk]}
 
+def gen_history(rng):
+    base = gen_case(rng, 24)
+    L = len(base['r'])
+    steps = [['none', 0]]
+    for _ in range(rng.randint(2, 5)):
+        k = rng.choice(['scale_inplace', 'scale_inplace', 'set_inplace', 'assign', 'sigma', 'none'])
+        if k == 'scale_inplace': v = rng.choice([0.5, 2.0, 0.25, 1.7])
+        elif k == 'set_inplace': v = [rng.randrange(L), rng.choice([0.0, 0.3, -0.2])]
+        elif k == 'assign': v = [rng.gauss(0, 1) for _ in range(L)]
+        elif k == 'sigma': v = base['r'][rng.randrange(L)] * rng.choice([1.0, 1.0, 1.3])
+        else: v = 0
+        steps.append([k, v])
+    base['u'] = [x if abs(x) < 1e5 else 50.0 for x in base['u']]
+    base['steps'] = steps
+    base['gammas'] = [[rng.gauss(0, 1) for _ in range(L)] for _ in steps]
+    return base
+
 def generate(ctx):
     maxL = ctx.n(40, 300)
+    for _ in range(ctx.n(150, 2000)):
+        c = gen_history(ctx.rng)
+        ctx.case('history', c, True, tags=['cls:' + c['cls'], 'hist:' + '+'.join(sorted(set(k for k, _ in c['steps'])))][:2])
+        suite_history(ctx, c)
     for _ in range(ctx.n(1200, 20000)):
         c = gen_case(ctx.rng, maxL)
         inside = sum(1 for x in c['r'] if not x > c['sigma'])
